@@ -42,6 +42,13 @@ def HOpener.shouldOpen (o : HOpener) (t : Int) : HOpener × Bool :=
     let (e, errCount) := o.errors.sumAt t
     ({ o with errors := e }, decide (errCount * 100 ≥ o.pct * attemptCount))
 
+/-- `MarshalJSON` → `errPercentage(cfg.now())`: rolls the attempts window to the injected clock's reading and, when
+    there are attempts, the errors window too; nothing else changes -/
+def HOpener.view (o : HOpener) (t : Int) : HOpener :=
+  let (a, attemptCount) := o.attempts.sumAt t
+  let o := { o with attempts := a }
+  if attemptCount = 0 then o else { o with errors := (o.errors.sumAt t).1 }
+
 /-! ### hystrix.Closer -/
 structure HCloser where
   tc : TC := {}
